@@ -149,6 +149,8 @@ func TestCheck(t *testing.T) {
 		runC07(t, env, rep)
 	case "C18":
 		runC18(t, env, rep)
+	case "C13":
+		runC13wire(t, env, rep)
 	default:
 		t.Fatalf("unknown VERIF_PROP %q", env.Prop)
 	}
